@@ -499,6 +499,10 @@ const basePrelude = `(declare-sort Str 0)
 (declare-fun sbyte (Int) Str)
 (assert (forall ((c Int)) (! (and (= (slen (sbyte c)) 1) (=> (and (<= 0 c) (<= c 255)) (= (sat (sbyte c) 0) c))) :pattern ((sbyte c)))))
 (declare-fun slt (Str Str) Bool)
+(declare-fun strext (Str Str) Bool)
+(declare-fun strdiff (Str Str) Int)
+(assert (forall ((a Str) (b Str)) (! (=> (strext a b) (= a b)) :pattern ((strext a b)))))
+(assert (forall ((a Str) (b Str)) (! (=> (and (= (slen a) (slen b)) (=> (and (<= 0 (strdiff a b)) (< (strdiff a b) (slen a))) (= (sat a (strdiff a b)) (sat b (strdiff a b))))) (strext a b)) :pattern ((strext a b)))))
 (declare-fun idx (Int Int) Int)
 (assert (forall ((o Int) (i Int)) (! (= (idx o i) (+ o i)) :pattern ((idx o i)))))
 (declare-datatypes ((Slice 0)) (((mk-slice (sbase Int) (soff Int) (slength Int) (scap Int)))))
